@@ -1,6 +1,7 @@
 SOURCES = []
 HARNESS = 'h_c13.cpp'
 ENV = ['vlibc.c']
+NATIVE_TIMEOUT = 25     # a native run that hangs (lost wake-up) is the confirmation of a 'deadlock' counterexample
 
 
 def instances(tier):
@@ -25,7 +26,10 @@ def instances(tier):
     for posts in ((1, 2) if q else (1, 2, 3)):
         for mode in (0, 1):
             out.append({'entry': 'h_sem', 'params': [B, posts, mode], 'bound': 'Semaphore: %d post(s) (%s) against %d wait(s) in another thread, at most %d preemptions' % (posts, 'post(n)' if mode else 'single posts', posts, B)})
-    out.append({'entry': 'h_cond', 'params': [B], 'bound': 'Condition under the documented mutex protocol: one waiter, one signaller, at most %d preemptions' % B})
+    for nw in ((1, 2) if q else (1, 2, 3)):
+        out.append({'entry': 'h_cond', 'params': [B if nw < 3 else 2, nw], 'bound': 'Condition under the documented mutex protocol: %d waiter(s), one signaller, at most %d preemptions' % (nw, B if nw < 3 else 2)})
+    out.append({'entry': 'h_functor2', 'params': [B], 'bound': 'two function-object Threads of the same type started back to back, at most %d preemptions' % B})
+    out.append({'entry': 'h_lambda2', 'params': [B], 'bound': 'two lambda Threads of the same closure type started back to back, at most %d preemptions' % B})
     return out
 
 
